@@ -17,18 +17,18 @@ for log in logs:
         continue
     for line in open(log, errors="replace"):
         line = line.rstrip("\n")
-        m = re.match(r"RESULT (?:/tmp/wt/out/|seeded/)(C\d+)[/-](m\d):(.*)", line.strip())
+        m = re.match(r"RESULT (?:/tmp/wt/out/|seeded/)(C\d+)[/-](m\d+):(.*)", line.strip())
         if m:
             key = f"{m.group(1)}-{m.group(2)}"
             for tok in m.group(3).split():
                 c, rc = tok.split("=")
                 matrix.setdefault(key, {})[c] = int(rc)
             continue
-        m = re.match(r"\s*\[(C\d+-m\d)\]\s+(C\d+) exit=1 failure: (?:sig=(\S+) :: )?(.*)", line)
+        m = re.match(r"\s*\[(C\d+-m\d+)\]\s+(C\d+) exit=1 failure: (?:sig=(\S+) :: )?(.*)", line)
         if m:
             observed.setdefault(m.group(1), {})[m.group(2)] = (m.group(3) or m.group(4))[:160]
 
-WAVE = {"m1": "1 (plain)", "m2": "1 (plain)", "m3": "2 (needs something specific)", "m4": "2 (needs something specific)", "m5": "3 (adversarial: told what kind of harness to evade)", "m6": "3 (adversarial: told what kind of harness to evade)", "m7": "4 (adversarial: told also what round 3 added, hash collisions and 4 GiB inputs excluded)", "m8": "4 (adversarial: told also what round 3 added, hash collisions and 4 GiB inputs excluded)"}
+WAVE = {"m1": "1 (plain)", "m2": "1 (plain)", "m3": "2 (needs something specific)", "m4": "2 (needs something specific)", "m5": "3 (adversarial: told what kind of harness to evade)", "m6": "3 (adversarial: told what kind of harness to evade)", "m7": "4 (adversarial: told also what round 3 added, hash collisions and 4 GiB inputs excluded)", "m8": "4 (adversarial: told also what round 3 added, hash collisions and 4 GiB inputs excluded)", "m9": "5 (adversarial, 6 properties: told also what round 4 added)", "m10": "5 (adversarial, 6 properties: told also what round 4 added)"}
 
 NOTES = {
     "C01-m5": "NOT CAUGHT, stated limit (DESIGN.md 6): wrong verdict only on a 32-bit fingerprint collision with the previously accepted input",
